@@ -6,6 +6,7 @@ import Mathlib.Data.Rat.Defs
 import Mathlib.Algebra.Order.Field.Rat
 import Mathlib.Data.String.Basic
 import Mathlib.Data.List.Nodup
+import AtsimModel.Lemmas.KernelQ
 /-!
 # C05 — DL_POLY TABEAM: declared function count, block headers and values
 
@@ -217,4 +218,52 @@ example : (tabeam false 3 1 5 (1/2) [⟨"Zr", 40, 91, 3, "hcp", 1, 2, []⟩, ⟨
      ("embe", ["Zr"], 3, 2, [3]), ("embe", ["Al"], 3, 2, [3]), ("dens", ["Zr"], 5, 2, [4, 1]), ("dens", ["Al"], 5, 2, [4, 1])] := by
   decide +kernel
 
+end Atsim.C05
+
+/-! ## kernel ties: the arithmetic the code uses at these places, regenerated from the source on every run, is the model's -/
+namespace Atsim.C05
+open Atsim.Gen Atsim.E
+set_option linter.unusedTactic false
+set_option linter.unusedSimpArgs false
+theorem C05_kernel_args (nrho : Nat) (drho : Rat) (nr : Nat) (dr : Rat) :
+    k_tabeam_args.map (evalQ (envQ [nrho, drho, nr, dr])) = [(nrho : Rat), drho, (nr : Rat), dr] := by
+  kernel_unfold [k_tabeam_args]
+  kernel_close
+theorem C05_kernel_sample (i : Nat) (step : Rat) : evalQ (envQ [i, step]) k_tabeam_sample = (i : Rat) * step := by
+  kernel_unfold [k_tabeam_sample]
+  kernel_close
+/-- the end-of-range printed in every block header is `(n - 1) * step` = `tblock.hi` -/
+theorem C05_kernel_ends (kw : String) (sp : List Sp) (f : Fid) (n : Nat) (step : Rat) :
+    evalQ (envQ [n, step]) k_tabeam_embe_end = (tblock kw sp f n step).hi ∧ evalQ (envQ [n, step]) k_tabeam_dens_end = (tblock kw sp f n step).hi ∧
+    evalQ (envQ [n, step]) k_tabeam_dens_end_fs = (tblock kw sp f n step).hi ∧ evalQ (envQ [n, step]) k_tabeam_pair_end = (tblock kw sp f n step).hi := by
+  refine ⟨?_, ?_, ?_, ?_⟩
+  · kernel_unfold [k_tabeam_embe_end, tblock]
+    kernel_close
+  · kernel_unfold [k_tabeam_dens_end, tblock]
+    kernel_close
+  · kernel_unfold [k_tabeam_dens_end_fs, tblock]
+    kernel_close
+  · kernel_unfold [k_tabeam_pair_end, tblock]
+    kernel_close
+/-- declared number of functions: the code's true division `n*(n+5)/2` and `3*n*(n+1)/2` are whole numbers and equal the model's counts -/
+theorem C05_kernel_counts (n : Nat) :
+    evalQ (envQ [n]) k_tabeam_numpots = ((n * (n + 5) / 2 : Nat) : Rat) ∧
+    evalQ (envQ [n]) k_tabeam_numpots_fs = ((3 * n * (n + 1) / 2 : Nat) : Rat) := by
+  have h1 : 2 ∣ n * (n + 5) := by
+    rcases Nat.even_or_odd n with ⟨k, hk⟩ | ⟨k, hk⟩
+    · exact ⟨k * (n + 5), by rw [hk]; ring⟩
+    · exact ⟨n * (k + 3), by rw [hk]; ring⟩
+  have h2 : 2 ∣ 3 * n * (n + 1) := by
+    rcases Nat.even_or_odd n with ⟨k, hk⟩ | ⟨k, hk⟩
+    · exact ⟨3 * k * (n + 1), by rw [hk]; ring⟩
+    · exact ⟨3 * n * (k + 1), by rw [hk]; ring⟩
+  constructor
+  · rw [Nat.cast_div h1 (by norm_num)]
+    kernel_unfold [k_tabeam_numpots]
+    push_cast
+    kernel_close
+  · rw [Nat.cast_div h2 (by norm_num)]
+    kernel_unfold [k_tabeam_numpots_fs]
+    push_cast
+    kernel_close
 end Atsim.C05
